@@ -138,6 +138,8 @@ def run(ctx):
     import props.C07_write as WS
     WS.prove_write_skeleton(ctx)
     WS.prove_sami_write_skeleton(ctx)
+    import props.C09_accessors as AC
+    AC.prove_accessors(ctx)           # (WebVTT / SRT / MicroDVD ask the caller's set before, or instead of, copying it)
     ctx.bounded("snapshots", "8 writers x option sets x caption sets (API-built with styles / classes / layouts at three "
                 "levels / unbalanced style nodes / fractional and identical times / absolute units that make writers "
                 "raise; plus the sets read from sample documents of six formats): structural snapshot before = after "
